@@ -119,7 +119,7 @@ Section Emit.
     | Minkowski cv => na "convexity" (sN cv)
     end.
 
-  (* Color / Offset nodes that say nothing write no header at all (they are not well-formed trees) *)
+  (* every node writes its header; a Color / Offset node that says nothing writes `color()` / `offset()` *)
   Definition e_header (o : scadop) : text :=
     if op_complete o then r_head (s2t (op_ident o)) (args_of o) ++ (if is_leaf_op o then s2t ";" else s2t " {" ++ [10%N])
     else [].
